@@ -41,7 +41,7 @@ def getattr(I, st, v, name):
     from .symex import FrozenList, FrozenDict, FrozenNd
 
     if isinstance(v, HObj):
-        if heap_is_obj(I, v.term):
+        if heap_is_obj(I, v.term) and not I.spec_mode:
             notnone = v.term != heap_none(I)
             outs = I.branch(st, notnone)
         else:
@@ -828,7 +828,12 @@ def call_builtin_class(I, st, c, args, kwargs):
     elif n == "tuple":
         yield st, tuple(I.iterate(args[0], st)) if args else ()
     elif n == "list":
+        if args and isinstance(args[0], SymSetOf):
+            yield st, args[0]
+            return
         yield st, st.alloc(ListE(I.iterate(args[0], st) if args else []))
+    elif (n == "set" or n == "frozenset") and args and isinstance(args[0], Ref) and st.get(args[0]).kind == "symlist":
+        yield st, SymSetOf(args[0])
     elif n == "set" or n == "frozenset":
         items = []
         for x in I.iterate(args[0], st) if args else []:
@@ -1144,6 +1149,10 @@ def make_builtins(I):
     add("reversed", _reversed)
 
     def _sorted(I, st, a, k):
+        src = a[0]
+        if isinstance(src, SymSetOf) or (isinstance(src, Ref) and st.get(src).kind == "symlist"):
+            yield st, sorted_symbolic(I, st, src, k.get("reverse", False))
+            return
         items = I.iterate(a[0], st)
         for st1, r in sorted_values(I, st, items, k.get("key"), k.get("reverse", False)):
             yield st1, (r if isinstance(r, Exc) else st1.alloc(ListE(r)))
@@ -1309,6 +1318,48 @@ def make_builtins(I):
 
     speclib.install(I, B)
     return B
+
+
+class SymSetOf:
+    """set(L) / list(set(L)) for a symbolic-length list L: only sorted() of it is modelled"""
+
+    def __init__(self, ref):
+        self.ref = ref
+
+
+def sorted_symbolic(I, st, src, reverse):
+    """A3: sorted(L) is a non-decreasing rearrangement of L; sorted(set(L)) the strictly increasing enumeration of
+    the values of L.  Facts added: order; every result element is an element of L and vice versa; equal length and
+    identity when L itself is already (strictly) increasing - for plain lists."""
+    if reverse not in (False, True):
+        raise Unsupported("sorted with symbolic reverse")
+    dedup = isinstance(src, SymSetOf)
+    ref = src.ref if dedup else src
+    e = st.get(ref)
+    n = I.fresh("int", "sorted_len")
+    arr = I.fresh(e.arr.sort(), "sorted")
+    k, j = z3.Int("k!so"), z3.Int("j!so")
+    st.pc.append(n >= 0)
+    if dedup:
+        st.pc.append(n <= e.length)
+        st.pc.append(z3.Implies(e.length > 0, n > 0))
+    else:
+        st.pc.append(n == e.length)
+    less = (lambda x, y: x > y) if reverse else (lambda x, y: x < y)
+    leq = (lambda x, y: x >= y) if reverse else (lambda x, y: x <= y)
+    order = less if dedup else leq
+    st.pc.append(z3.ForAll([k], z3.Implies(z3.And(k >= 0, k < n - 1), order(z3.Select(arr, k), z3.Select(arr, k + 1)))))
+    w1 = I.func("sorted_src_%d" % arr.get_id(), z3.IntSort(), z3.IntSort())
+    w2 = I.func("sorted_dst_%d" % arr.get_id(), z3.IntSort(), z3.IntSort())
+    st.pc.append(z3.ForAll([k], z3.Implies(z3.And(k >= 0, k < n), z3.And(w1(k) >= 0, w1(k) < e.length, z3.Select(e.arr, w1(k)) == z3.Select(arr, k))),
+                           patterns=[z3.Select(arr, k)]))
+    st.pc.append(z3.ForAll([j], z3.Implies(z3.And(j >= 0, j < e.length), z3.And(w2(j) >= 0, w2(j) < n, z3.Select(arr, w2(j)) == z3.Select(e.arr, j))),
+                           patterns=[z3.Select(e.arr, j)]))
+    if not dedup:
+        already = z3.ForAll([k], z3.Implies(z3.And(k >= 0, k < e.length - 1), leq(z3.Select(e.arr, k), z3.Select(e.arr, k + 1))))
+        st.pc.append(z3.Implies(already, z3.ForAll([k], z3.Implies(z3.And(k >= 0, k < n), z3.Select(arr, k) == z3.Select(e.arr, k)))))
+    I.trust("sorted-symbolic", "A3: sorted(L) / sorted(set(L)) of a symbolic list: ordered rearrangement / strictly increasing enumeration of the values of L")
+    return st.alloc(SymListE(n, arr))
 
 
 def getattr_py(o, n):
